@@ -4,6 +4,7 @@ CONSTANTS FlawShallowListFreeze = TRUE
  FlawAppendSharesCapacity = TRUE
  FlawSortedAliasesOrdered = FALSE
  OnlyTargets = {"F"}
+ DeepTargets = {}
  MaxMut = 1
  DeepVias = {"direct", "alias"}
  LastVias = {"arg", "compr", "loop"}
